@@ -36,6 +36,9 @@ CLAIMS = {
  'C18': dict(cat='proof', ref='DESIGN.md 7 (C18), 12',
    text="Kernel claim: (1) lemma over the prefix table extracted from util.cpp on every run: exactly the 20 SI prefixes, each mapped to the literal 10^exponent; (2) getSIScaling's factor selection, by complete case split over power -3..3 and presence of origin/destination prefix: not scalable is rejected, equal prefixes give exactly 1, otherwise the factor is (origin factor / destination factor) raised to the power, with the same operations as the code.",
    note=NOTE_COMMON + "KERNEL ONLY: strings abstracted to ids; splitUnit / isScalable / isSIUnit (boost::regex grammar) are ghost inputs, so the grammar is not covered; pow for integer exponents is repeated multiplication (libm rounding not modelled); the three cases 'negative power with both prefixes present' do not terminate in the solver and are not claimed; reciprocity/composition in double arithmetic and retrieval invariance under rescaling are not covered."),
+ 'C19': dict(cat='proof', ref='DESIGN.md 7 (C19), 12',
+   text="Kernel claim, the rule predicates of src/valid/checks.cpp: dimTicksMatchData / dimLabelsMatchData / dimDataFrameTicksMatchData return false exactly when some Range / Set (with labels) / DataFrame descriptor d below the data rank has a tick / label / row count different from the data extent along d (completeness 'every breach is flagged' for every descriptor, soundness 'conforming descriptors are accepted'), for descriptor vectors of any length under a loop contract; dimEquals is true iff the rank equals the descriptor count. tagUnitsMatchRefsUnits (false iff some given tag unit is not convertible to the given unit of the same dimension of some referenced array) is checked as a BOUNDED stand-in (2 arrays x 3 units) and not counted as proved.",
+   note=NOTE_COMMON + "KERNEL ONLY: the rule tables of src/valid/validate.cpp (initializer lists of lambdas: which predicate is attached to which entity, as error or warning, incl. the soft rules) and the walk in File::validate are NOT covered - a rule removed from a table is invisible to this check; helper.cpp getDimensionsUnits, util::isScalable (regex) and the entity getters are abstracted (handles = the state the predicates read; descriptor d has index d+1, which is property C13)."),
  'C16': dict(cat='proof', ref='DESIGN.md 7 (C16), 12',
    text="Kernel claim: per function under contract, CBMC's built-in checks (bounds, pointer validity, pointer arithmetic, signed overflow, float-to-integer conversion, division by zero, shifts) are discharged under type-invariant-only preconditions, i.e. for every argument a C++ caller can form the function returns or raises. Covers the position-to-index functions for all doubles incl. NaN/inf/1e300 and any tick vector.",
    note=NOTE_COMMON + "Kernel only: absence of UB for sequences of API calls, handle lifetimes after delete/close and libhdf5 internals are not covered."),
@@ -52,8 +55,7 @@ NA = {
  'C15': "cell round trip is HDF5 compound-type conversion inside H5Dread/H5Dwrite",
  'C20': "breadth-first search over std::list/std::function on HDF5-backed handles; not extractable without writing a model",
 }
-PENDING = {k: "kernel planned in DESIGN.md section 7 (rule predicates of checks.cpp) was not built in the time available: iterators over std::vector<Dimension>, auto and handle downcasts are outside the extraction idiom map as it stands; the rule tables (lambdas/templates) are out of reach regardless" for k in
-           ['C19']}
+PENDING = {}
 def main():
     extra = json.load(open(os.path.join(ROOT, 'vlib', 'claims_extra.json'))) if os.path.exists(os.path.join(ROOT, 'vlib', 'claims_extra.json')) else {}
     checks = []
